@@ -1,3 +1,4 @@
+import Harper.Driver.Rules2
 import Harper.Driver.PatternRules
 import Harper.Driver.Leaves
 import Harper.Driver.Typst
@@ -115,7 +116,9 @@ def handlers : List (String × (List String → String)) := [
   ("mergel", Leaves.handleMergeL),
   ("prulem", PatternRules.handlePRuleM),
   ("prule", PatternRules.handlePRule),
-  ("pmtl", PatternRules.handlePMtl)
+  ("pmtl", PatternRules.handlePMtl),
+  ("rule2", Rules2.handleRule2),
+  ("rule2toks", Rules2.handleRule2Toks)
 ]
 
 def handle (line : String) : String :=
